@@ -2,7 +2,7 @@
    Decoders and window code are the go2coq translation from this run, with
    run-time panics explicit (constructor Panic). *)
 From LNC Require Import GoLite MessagesGen MsgDataGen QueueGen Codec Gbn Window Totality GbnInv GbnSafety.
-From LNC Require Import SyncerGen SyncerProofs.
+From LNC Require Import SyncerGen SyncerTotal.
 Open Scope Z_scope.
 
 (* every byte string, any length, any values *)
